@@ -703,8 +703,9 @@ def ref_words(body):
 
 
 def lost_before_float(body, missing):
-    """decidable precondition of the listed layout finding SIG_LOST_FLOAT: every missing word is the last word of a
-    text node that ends without white space right before a floated sibling, or lies inside such a float"""
+    """decidable precondition of the listed layout finding SIG_LOST_FLOAT: every missing word is the word that
+    immediately precedes a float in the inline content (inline elements being transparent, nothing but white space and
+    empty inline elements in between), or lies inside such a float"""
     ok = set()
 
     def inside(e):
@@ -717,16 +718,39 @@ def lost_before_float(body, missing):
         for k in e['kids']:
             inside(k)
 
-    def walk(kids):
-        for i, k in enumerate(kids):
+    def flat(kids, out):
+        for k in kids:
             if isinstance(k, str):
-                nxt = kids[i + 1] if i + 1 < len(kids) else None
-                if isinstance(nxt, dict) and nxt['float'] != 'none' and nxt['display'] != 'none' and k.split() and not k[-1].isspace():
-                    ok.add(k.split()[-1])
-                    inside(nxt)
+                out.extend(('w', w) for w in k.split())
+            elif k['display'] == 'none':
+                continue
+            elif k['float'] != 'none':
+                out.append(('float', k))
+                flat(k['kids'], [])
+            elif k['display'] == 'inline' and k['position'] in ('static', 'relative'):
+                if k['before']:
+                    out.extend(('w', w) for w in k['before']['content'].split())
+                flat(k['kids'], out)
+                if k['after']:
+                    out.extend(('w', w) for w in k['after']['content'].split())
             else:
-                walk(k['kids'])
-    walk(body)
+                out.append(('other', k))
+                sub = []
+                flat(k['kids'], sub)
+                scan(sub)
+
+    def scan(seq):
+        for i, t in enumerate(seq):
+            if t[0] == 'float':
+                if i and seq[i - 1][0] == 'w':
+                    ok.add(seq[i - 1][1])
+                    inside(t[1])
+                sub = []
+                flat(t[1]['kids'], sub)
+                scan(sub)
+    top = []
+    flat(body, top)
+    scan(top)
     return bool(missing) and all(w in ok for w in missing)
 
 
